@@ -1,8 +1,11 @@
 package sendx
 
 import (
+	"bufio"
+	"bytes"
 	"fmt"
 	"math/rand"
+	"net/textproto"
 	"runtime"
 	"strings"
 	"sync"
@@ -323,6 +326,9 @@ func RunProp(r *hx.Run, replay []hx.Case, prop string) {
 	var ids []string
 	if replay != nil {
 		for _, rc := range replay {
+			if rc.Kind == "dot" {
+				continue
+			}
 			c, err := ParseCase(rc.Args)
 			if err != nil {
 				r.Fail(rc.ID, "unreadable-case", err.Error())
@@ -397,6 +403,89 @@ func RunProp(r *hx.Run, replay []hx.Case, prop string) {
 		r.Add(hc, obs, nontrivial)
 		for _, f := range fs {
 			r.Fail(ids[i], f.Class, f.Detail)
+		}
+	}
+}
+
+// ---------- the dot-writer itself (C03): real net/textproto against the model's dot_encode / dot_decode ----------
+
+func dotWire(chunks [][]byte) []byte {
+	var buf bytes.Buffer
+	bw := bufio.NewWriter(&buf)
+	w := textproto.NewWriter(bw).DotWriter()
+	for _, c := range chunks {
+		_, _ = w.Write(c)
+	}
+	_ = w.Close()
+	return buf.Bytes()
+}
+
+// serverDecode is the receiving side as RFC 5321 4.5.2 describes it (and harness/smtpx implements it)
+func serverDecode(wire []byte) ([]byte, bool) {
+	var data []byte
+	for {
+		i := bytes.IndexByte(wire, '\n')
+		if i < 0 {
+			return nil, false
+		}
+		line := wire[:i+1]
+		wire = wire[i+1:]
+		if string(line) == ".\r\n" {
+			return data, len(wire) == 0
+		}
+		if line[0] == '.' {
+			line = line[1:]
+		}
+		data = append(data, line...)
+	}
+}
+
+// RunDot adds the dot-writer cases (kind "dot") to a C03 run.
+func RunDot(r *hx.Run, replay []hx.Case) {
+	alphabet := []byte{'.', '\r', '\n', 'a', '.', '\n', 'b', ' '}
+	n := 400
+	if r.Tier == "thorough" {
+		n = 20000
+	}
+	var cases [][][]byte
+	var ids []string
+	if replay != nil {
+		for _, rc := range replay {
+			if rc.Kind == "dot" && len(rc.Args) == 1 {
+				cases = append(cases, hx.UnHexList(rc.Args[0]))
+				ids = append(ids, rc.ID)
+			}
+		}
+	} else {
+		cases = append(cases, nil, [][]byte{{}}, [][]byte{[]byte(".")}, [][]byte{[]byte(".\r\n")}, [][]byte{[]byte("\r")}, [][]byte{[]byte("a\r\r\n.b")})
+		for i := 0; i < n; i++ {
+			nc := 1 + r.Rng.Intn(4)
+			var cs [][]byte
+			for j := 0; j < nc; j++ {
+				l := r.Rng.Intn(7)
+				c := make([]byte, l)
+				for k := range c {
+					c[k] = alphabet[r.Rng.Intn(len(alphabet))]
+				}
+				cs = append(cs, c)
+			}
+			cases = append(cases, cs)
+		}
+	}
+	for i, cs := range cases {
+		var id string
+		if replay != nil {
+			id = ids[i]
+		} else {
+			id = r.NewID()
+		}
+		wire := dotWire(cs)
+		all := bytes.Join(cs, nil)
+		canon := DotCanon(all)
+		obs := hx.Hex(wire) + " " + hx.Hex(canon)
+		r.Add(hx.Case{ID: id, Kind: "dot", Args: []string{hx.HexList(cs)}}, obs, len(all) > 2)
+		if dec, ok := serverDecode(wire); !ok || !bytes.Equal(dec, canon) {
+			r.Fail(id, "dot-roundtrip", fmt.Sprintf("content %q: wire %q decodes to %q, expected %q", all, wire, dec, canon))
 		}
 	}
 }
